@@ -8,7 +8,8 @@ CONFIG = {
     "coq_dirs": ["theories/Store"],
     "coq_targets": ["theories/Store/Properties.vo", "theories/Store/Corr.vo"],
     "properties_files": ["theories/Store/Properties.v"],
-    "required_theorems": ["no_lost_update", "one_handle_per_digest", "failed_write_requeued", "returned_handle_current"],
+    "required_theorems": ["no_lost_update", "one_handle_per_digest", "failed_write_requeued", "returned_handle_current",
+                          "monitor_accepts_model", "monitor_never_alarms", "monitor_silent_without_stale_read", "corr_accepts_model"],
     "violation_kinds": ["C07:store-"],
     "harnesses": [
         {"cmd": "store", "cases_quick": 400, "cases_thorough": 16000, "shards_quick": 8, "shards_thorough": 32, "race": True},
@@ -26,7 +27,7 @@ CONFIG = {
     "assumptions": [
         "a storage call's completion and the critical section that follows it are one atomic event (the harness cannot separate them either)",
         "data-race freedom outside ss.lock; Go mutex/errgroup semantics",
-        "partial: the three checks of the trace monitor (Store/Spec.v mon_step) are proved of the model as state/step theorems (no_lost_update, one_handle_per_digest, returned_handle_current); the bookkeeping that links the monitor's own view of outstanding Gets/handles to the model state is not mechanised",
+        "the trace monitor (Store/Spec.v mon_step) is proved of the model at fold level (monitor_accepts_model, monitor_never_alarms; simulation Sim in Store/Monitor.v), and Corr.v's check_case accepts the model's own case file (corr_accepts_model) for event lists over the harness' digest range 0..4",
         "known finding C07:store-stale-read (read overtaken by a completed write-back) is a property of the repaired code too: returned_handle_latest_refuted",
     ],
 }
